@@ -53,6 +53,10 @@ case_st = st.fixed_dictionaries(dict(
     mode=st.sampled_from(["allow_restart", "dump_results"]),
     listing=st.sampled_from(["sorted", "reversed", "perm", "perm"]),
     ls=st.integers(0, 2 ** 32),
+    # storage mode switched between the segments (None = same mode throughout) and file times of the restart
+    # directory reset between segments (copied directory: equal or reversed modification times)
+    switch=st.sampled_from([None, None, "odd-other", "even-other"]),
+    touch=st.sampled_from(["none", "none", "equal", "reversed"]),
 ))
 
 
@@ -102,8 +106,17 @@ def check(case):
     segs = case["segs"]
     T = sum(segs)
     mesh = case["mesh"] if isinstance(case["mesh"], int) else list(case["mesh"])
-    common = dict(adpt_mesh=mesh, adpt_fac=case["fac"], use_irred_kpt=case["irred"], symmetrize=case["irred"])
-    common.update(dict(allow_restart=True) if case["mode"] == "allow_restart" else dict(dump_results=True))
+    base = dict(adpt_mesh=mesh, adpt_fac=case["fac"], use_irred_kpt=case["irred"], symmetrize=case["irred"])
+
+    def mode_kw(m):
+        return dict(allow_restart=True) if m == "allow_restart" else dict(dump_results=True)
+
+    # storage mode of every segment: by default the same for all, optionally switched between restarts
+    seg_modes = [case["mode"]] * len(segs)
+    if case.get("switch"):
+        other = "dump_results" if case["mode"] == "allow_restart" else "allow_restart"
+        seg_modes = [case["mode"] if (i % 2 == 0) == (case["switch"] == "odd-other") else other for i in range(len(segs))]
+    common = dict(base, **mode_kw(seg_modes[0]))
     with scratch_dir() as scratch:
         calcs = runhelp.make_calculators(case["calcs"]["names"], case["calcs"]["Efermi"], has_AA)
         # (a) uninterrupted
@@ -138,8 +151,16 @@ def check(case):
             done = 0
             for iseg, a in enumerate(segs):
                 calcs_b = runhelp.make_calculators(case["calcs"]["names"], case["calcs"]["Efermi"], has_AA)
-                kwB = runhelp.run_kwargs(scratch, "B", adpt_num_iter=a, restart=(iseg > 0), **common)
+                kwB = runhelp.run_kwargs(scratch, "B", adpt_num_iter=a, restart=(iseg > 0), **dict(base, **mode_kw(seg_modes[iseg])))
                 before = proxy.unsorted_calls
+                if iseg > 0 and case.get("touch", "none") != "none":
+                    # the restart directory was copied / unpacked in between: modification times carry no information
+                    fdir = kwB["file_Klist_path"]
+                    names = sorted(f for f in os.listdir(fdir))
+                    t_base = 1.7e9
+                    for j, f in enumerate(names):
+                        t = t_base if case["touch"] == "equal" else t_base + 10.0 * (len(names) - j)
+                        os.utime(os.path.join(fdir, f), (t, t))
                 resB = wb.run(system, grid, calcs_b, **kwB)
                 if iseg > 0 and done >= 1 and proxy.unsorted_calls > before and proxy.max_files >= 2:
                     nontrivial = True
@@ -198,6 +219,8 @@ merge_st = st.fixed_dictionaries(dict(
     mode=st.sampled_from(["dump_results", "dump_results", "allow_restart"]),
     listing=st.sampled_from(["sorted", "reversed", "perm"]),
     ls=st.integers(0, 2 ** 32),
+    switch=st.sampled_from([None, "odd-other", "even-other"]),
+    touch=st.sampled_from(["none", "equal", "reversed"]),
 ))
 
 SUBS = [Sub("restart", case_st, check, quick=40, thorough=560, budget_quick=80, budget_thorough=500),
